@@ -29,7 +29,9 @@ ASSUMPTIONS = ["interleavings are those a single thread can produce (alternating
 
 ERRORS = ["a eq", "a eq 'x", "a $ b", "(a eq 1", "a eq 1)", "foo(1)", "contains(a)", "substring(a)", "a eq 1 and",
           "not", "a/b/", "a in ()", "x.f(a=1, 2)", "geo.area(a)", "a eq 1 1", "'", "a eq duration'P1'", "",
-          "any(x: x eq 1)", "a/any(x x eq 1)", "1 add", "a eq 12:30::15", "a..b eq 1", "now(1)", "a,b"]
+          "any(x: x eq 1)", "a/any(x x eq 1)", "1 add", "a eq 12:30::15", "a..b eq 1", "now(1)", "a,b",
+          "geography'POINT(1 2", "a eq geography'x", "duration'P1D", "a eq duration'PT5", "a eq 'it''s", "x in (1, 'a",
+          "geo.distance(a, geography'POINT(", "a eq 2020-01-01T", "a eq 123e4567-e89b-12d3-a456-", "f(a='"]
 VALID = ["a eq 1", "a/b/c eq 'x'", "not (a gt 1 or b lt 2)", "contains(a, 'x') and c in (1, 2)",
          "x/any(v: v/n eq 1)", "ns.f(p=1, q=2)", "a add 1 mul 2 eq 7", "-a eq 2020-01-01",
          "a eq duration'P1DT2H'", "tolower(a) eq 'b'", "a/all(x: x/y/any(z: z eq x/k))", "(1, 2, 3)", "(a,)",
@@ -211,7 +213,8 @@ def texts():
     valid = st.one_of(st.sampled_from(VALID),
                       gen_syntax.exprs(2, gen_syntax.Cfg()).map(printer.render))
     bad = st.one_of(st.sampled_from(ERRORS),
-                    st.tuples(st.sampled_from(VALID), st.integers(0, 2 ** 20)).map(lambda p: mutate(p[0], p[1])))
+                    st.tuples(st.sampled_from(VALID), st.integers(0, 2 ** 20)).map(lambda p: mutate(p[0], p[1])),
+                    st.tuples(valid, st.integers(1, 40)).map(lambda p: p[0][:max(1, len(p[0]) - p[1] % max(len(p[0]), 1))]))
     return valid, bad
 
 
